@@ -73,6 +73,13 @@ CHECKS = {
             "accepted, the base relation must stay acyclic with a C3 linearisation and names valid. Must-accept requests guard "
             "against rejecting everything.",
             "which requests are rejected is modelx's choice (accept-follows-real); dropping computed (non-input) values on a rejection is allowed"),
+    "C12": ("exploration",
+            "stateful property-based testing (Hypothesis): naming/base-change histories over a tiny shared name pool with invariants over containers, dir(), attribute access, a formula-side namespace probe and the library self-checks",
+            "Histories request the same few names as cells, references and child spaces, in single spaces and across base/sub pairs, "
+            "with renames, deletions, base changes, model-level references and parameter formulas. After every step, in every space "
+            "and in ItemSpaces, the three containers must be disjoint, dir() and the names a probe formula sees must equal their "
+            "union, attribute access must give the object of the right kind, and the library's self-checks must pass.",
+            "the precedence between a model-level reference and a child space of the same name is not asserted"),
     "C14": ("fault_enumeration",
             "fault injection with a process-wide audit hook: every file-system event of write_model/read_model is a fault point in turn (exhaustive per case), plus consecutive-failure sequences, pickling faults and a file corruption sweep, over Hypothesis-generated models",
             "For generated models, both container formats and 0-4 earlier good saves, the save (or load) is replayed from a restored "
